@@ -192,11 +192,37 @@ public:
     }
 
     // the buffer is empty check if another buffer exists
-    Node* const next_node = _consumer->next.load(std::memory_order_acquire);
+    Node* next_node = _consumer->next.load(std::memory_order_acquire);
 
     if (next_node)
     {
-      return _read_next_queue(next_node);
+      read_result = _read_next_queue(next_node);
+
+      // The producer can re-allocate more than once without writing anything in between (e.g. two
+      // consecutive shrink() calls, or a shrink() to a capacity the next message does not fit in).
+      // The buffer we switched to is then empty and already has a successor holding the messages:
+      // keep following the chain, otherwise this read reports an empty queue while committed
+      // messages exist, and the backend can process a later message of another thread first
+      while (read_result.allocation && !read_result.read_pos &&
+             (next_node = _consumer->next.load(std::memory_order_acquire)))
+      {
+        size_t const first_previous_capacity = read_result.previous_capacity;
+        read_result = _read_next_queue(next_node);
+
+        if (read_result.allocation)
+        {
+          read_result.previous_capacity = first_previous_capacity;
+        }
+        else
+        {
+          // the buffer we had switched to was written in the meantime, we are still on it
+          read_result.allocation = true;
+          read_result.new_capacity = _consumer->bounded_queue.capacity();
+          read_result.previous_capacity = first_previous_capacity;
+        }
+      }
+
+      return read_result;
     }
 
     // Queue is empty and no new queue exists
